@@ -393,6 +393,14 @@ where
                 ..
             }) => {
                 let key = (ident.sym.clone(), ident.ctxt);
+                #[cfg(feature = "verif-trace")]
+                crate::verif::emit(
+                    "resolve_ref",
+                    &[
+                        ("site", crate::verif::V::S("elements")),
+                        ("name", crate::verif::V::S(&ident.sym)),
+                    ],
+                );
                 if let Some(aliased) = self.type_aliases.get(&key) {
                     self.resolve_type_elements(aliased, props);
                 } else if let Some(TsInterfaceDecl {
@@ -646,6 +654,14 @@ where
                 ..
             }) => {
                 let key = (ident.sym.clone(), ident.ctxt);
+                #[cfg(feature = "verif-trace")]
+                crate::verif::emit(
+                    "resolve_ref",
+                    &[
+                        ("site", crate::verif::V::S("indexed")),
+                        ("name", crate::verif::V::S(&ident.sym)),
+                    ],
+                );
                 if let Some(aliased) = self.type_aliases.get(&key) {
                     self.resolve_indexed_access(aliased, index)
                 } else if let Some(interface) = self.interfaces.get(&key) {
@@ -1004,6 +1020,14 @@ where
                 ..
             }) => {
                 let key = (ident.sym.clone(), ident.ctxt);
+                #[cfg(feature = "verif-trace")]
+                crate::verif::emit(
+                    "resolve_ref",
+                    &[
+                        ("site", crate::verif::V::S("runtime")),
+                        ("name", crate::verif::V::S(&ident.sym)),
+                    ],
+                );
                 if let Some(aliased) = self.type_aliases.get(&key) {
                     runtime_types.extend(self.infer_runtime_type(aliased));
                 } else if let Some(TsInterfaceDecl {
